@@ -430,6 +430,58 @@ func (q *seqRun) offer(o *offerT, slot string, light bool) bool {
 		}()
 		tx, perr = dag.ParseTransaction(o.data)
 	}()
+	if perr == nil && v == mustAdmit && !light && before != nil {
+		// every third valid offer is first made to fail in the store (rotating: commit refused, caller gone during the write, n-th Put
+		// failing): the refused Add may leave nothing behind, in the shelves or in what XOR/IBLT/Head report (incl. the clock)
+		q.stat["valid_offers"]++
+		if n := q.stat["valid_offers"]; n%3 == 0 {
+			kinds := []string{"commit-refused", "caller-gone-in-write", "put-1-failed", "put-2-failed", "put-3-failed", "put-4-failed"}
+			kind := kinds[(n/3)%len(kinds)]
+			ctx, cancel := context.WithCancel(context.Background())
+			plan := &faultstore.Plan{Once: true}
+			switch kind {
+			case "commit-refused":
+				plan.FailAtEnd = true
+			case "caller-gone-in-write":
+				plan.AtEnd = cancel
+			default:
+				plan.FailOp = int(kind[4] - '0')
+			}
+			faultsBefore := e.fs.Faults
+			e.fs.Arm(plan)
+			ferr := e.st.Add(ctx, tx, o.payload)
+			e.fs.Arm(nil)
+			cancel()
+			switch {
+			case ferr == nil:
+				// the fault did not bite (fewer Puts than n, or the store does not consult the context): the transaction is in;
+				// the regular Add below is then a re-submission of a present transaction
+				r.Count("failed_write_fault_not_effective", 1)
+				m.admit(ref, &o.f, o.payload)
+				r.Count("admitted", 1)
+				e.last = e.snapshot()
+				before = e.last
+				callsBefore = e.totalCalls()
+				v, why = presentNoop, "present"
+			default:
+				r.Count("failed_writes_of_valid_transactions", 1)
+				r.Case("failed-write/"+kind+"/"+o.f.group, true)
+				_ = faultsBefore
+				afterFault := e.snapshot()
+				if d := before.diff(afterFault); afterFault.raw != before.raw || len(d) > 0 {
+					r.Violation("C06/refused-left-trace/write-failed/"+kind, fmt.Sprintf("a valid transaction (%s) whose Add failed (%s: %v) changed the store or the digests: %s", o.f.class, kind, ferr, strings.Join(d, "; ")),
+						map[string]any{"dag": q.dag, "class": o.f.class, "slot": slot, "fault": kind, "error": ferr.Error(), "differences": d, "transaction": short(o.data)})
+				}
+				if present, _ := e.st.IsPresent(context.Background(), ref); present {
+					r.Violation("C06/presence/write-failed/"+kind, fmt.Sprintf("IsPresent=true after an Add that failed (%s: %v)", kind, ferr), map[string]any{"dag": q.dag, "class": o.f.class, "fault": kind})
+				}
+				if c := e.totalCalls(); c != callsBefore {
+					r.Violation("C06/refused-notified/write-failed/"+kind, fmt.Sprintf("subscribers were called %d times for a transaction whose Add failed (%s)", c-callsBefore, kind), map[string]any{"dag": q.dag, "class": o.f.class, "fault": kind})
+					callsBefore = c
+				}
+			}
+		}
+	}
 	if perr == nil {
 		func() {
 			defer func() {
